@@ -50,6 +50,26 @@ Crc64(bytes, init) ==
 Crc32Def(bytes, init) == CrcDef(Poly32, bytes, init)
 Crc64Def(bytes, init) == CrcDef(Poly64, bytes, init)
 
+\* ------------------------------------------------------------------ long runs of zero bytes (closed form)
+\* The CRC register is a polynomial over GF(2) (reflected: the most significant bit is x^0); shifting in one
+\* zero bit multiplies it by x modulo the generator, which is CrcBit.  n zero bytes multiply it by x^(8n), and
+\* x^(8n) is obtained by square-and-multiply over the binary digits of n (n given as 16-bit limbs, least
+\* significant first), so inputs of many GiB are within reach.  MCCheck checks ZeroRun = CrcDef on short runs.
+Mat(w) == SubSeq(w, 1, Len(w))                    \* evaluated copy (TLC keeps function constructors lazy)
+WBit(a, k) == (a[(k \div 16) + 1] \div Pow2(k % 16)) % 2
+PolyOne(nl) == [i \in 1..nl |-> IF i = nl THEN 32768 ELSE 0]
+PolyMul(poly, a, b) ==
+    LET W == 16 * Len(poly)
+    IN FoldLeft(LAMBDA st, i : <<IF WBit(a, W - 1 - i) = 1 THEN Mat(WXor(st[1], st[2])) ELSE st[1], Mat(CrcBit(poly, st[2]))>>,
+                <<Mat(WConst(Len(poly), 0)), Mat(b)>>, [k \in 1..W |-> k - 1])[1]
+PolyX8(poly) == Mat(CrcBits8(poly, PolyOne(Len(poly))))
+\* (x^8)^n, n = sum of nlimbs[i] * 65536^(i-1)
+PolyX8Pow(poly, nlimbs) ==
+    FoldLeft(LAMBDA st, k : <<IF WBit(nlimbs, k) = 1 THEN PolyMul(poly, st[1], st[2]) ELSE st[1], PolyMul(poly, st[2], st[2])>>,
+             <<Mat(PolyOne(Len(poly))), PolyX8(poly)>>, [k \in 1..(16 * Len(nlimbs)) |-> k - 1])[1]
+\* CRC of n zero bytes that follow data whose CRC is init
+ZeroRun(poly, nlimbs, init) == Mat(WNot(PolyMul(poly, Mat(WNot(init)), PolyX8Pow(poly, nlimbs))))
+
 \* ------------------------------------------------------------------ SHA-256 (FIPS 180-4)
 K == <<<<\h2F98, \h428A>>, <<\h4491, \h7137>>, <<\hFBCF, \hB5C0>>, <<\hDBA5, \hE9B5>>,
   <<\hC25B, \h3956>>, <<\h11F1, \h59F1>>, <<\h82A4, \h923F>>, <<\h5ED5, \hAB1C>>,
@@ -94,8 +114,10 @@ Compress(H, block) ==
          Add32(H[5], r[5]), Add32(H[6], r[6]), Add32(H[7], r[7]), Add32(H[8], r[8])>>
 
 Zeros(n) == [i \in 1..n |-> 0]
-\* message length in bits as 8 big-endian bytes (messages shorter than 2^28 bytes)
-BitLenBE(n) == <<0, 0, 0, 0>> \o BytesBE32(U32(8 * n))
+\* message length in bits (8 * n) as 8 big-endian bytes, for n < 2^31 bytes: the 64-bit value in 16-bit limbs
+\* is <<(n mod 2^13) * 8, (n div 2^13) mod 2^16, n div 2^29, 0>> (least significant first)
+BitLenBE(n) == LET l0 == (n % 8192) * 8  l1 == (n \div 8192) % 65536  l2 == n \div 536870912
+               IN <<0, 0, l2 \div 256, l2 % 256, l1 \div 256, l1 % 256, l0 \div 256, l0 % 256>>
 Pad(msg) == msg \o <<128>> \o Zeros((119 - (Len(msg) % 64)) % 64) \o BitLenBE(Len(msg))
 DigestBytes(H) == BytesBE32(H[1]) \o BytesBE32(H[2]) \o BytesBE32(H[3]) \o BytesBE32(H[4])
                \o BytesBE32(H[5]) \o BytesBE32(H[6]) \o BytesBE32(H[7]) \o BytesBE32(H[8])
